@@ -81,6 +81,7 @@ type LoopInfo struct {
 	havocPhi   map[*ssa.Phi]Val
 	entryAlloc Term
 	variant0   Term
+	frames     []*loopFrame
 }
 
 type VC struct {
